@@ -149,11 +149,14 @@ def h_convert(g):
         converted.append((gtf, db, complete))
         ex[db] = True
         mt[db] = new_db_mtime
-    old = (gtf2db.os, gtf2db.__dict__.get("open"), gtf2db.json, gtf2db.gtf2db)
+    old = (gtf2db.os, gtf2db.__dict__.get("open"), gtf2db.json, gtf2db.gtf2db, gtf2db.__dict__.get("dump_json_atomically"))
     gtf2db.os = FakeOS(ex, mt)
     gtf2db.open = lambda name, mode="r": FakeFile(store, name, mode)
     gtf2db.json = FakeJson(store)
     gtf2db.gtf2db = converter
+    if old[4] is not None:
+        # how the cache file is published (temporary file + rename) is the subject of C20; here: its content
+        gtf2db.dump_json_atomically = lambda obj, name: store.__setitem__(name, dict(obj))
     try:
         args = type("A", (), {"db_config_path": CFG, "clean_start": False, "complete_genedb": flag, "gtf_check": False})()
         r1 = call(g, gtf2db.convert_db, GTF, DB, converter, args)
@@ -171,6 +174,8 @@ def h_convert(g):
         g.check(len(converted) == n_before + 1, "a different --complete_genedb setting never reuses the cached conversion")
     finally:
         gtf2db.os, gtf2db.json, gtf2db.gtf2db = old[0], old[2], old[3]
+        if old[4] is not None:
+            gtf2db.dump_json_atomically = old[4]
         if old[1] is None:
             del gtf2db.open
         else:
